@@ -140,7 +140,7 @@ def run(ctx):
     # here from the wire subset alone, and the same codec's encoder accepts it (finding F67: constraints of records were
     # never evaluated)
     pm = [('a', univ.Integer(), univ.Integer(7)), ('b', univ.OctetString(), univ.OctetString(b'pq')), ('c', univ.Boolean(), univ.Boolean(True))]
-    pencs = [I.run_encode('BER', v)[1] for _, _, v in pm]
+    pencs = [I.run_encode('DER', v)[1] for _, _, v in pm]      # DER forms (TRUE = FF): valid for all three decoders
     for container, tagoct in ((univ.Sequence, 0x30), (univ.Set, 0x31)):
         for pattern in itertools.product('PA-', repeat=3):
             if pattern == ('-', '-', '-'): continue
